@@ -332,10 +332,10 @@ func run1(c Case) ev.Verdict {
 			return ev.Fail("round %d: Close: %v", round, err)
 		}
 
-		if s.pipe.Closes != round+1 {
+		if s.pipe.Closes < round+1 {
 			s.pipe.Release()
 
-			return ev.Fail("round %d: Close returned but the transport was closed %d times in %d rounds", round, s.pipe.Closes, round+1)
+			return ev.Fail("round %d: Close returned but the transport was closed only %d times in %d rounds", round, s.pipe.Closes, round+1)
 		}
 
 		s.reset()
@@ -537,6 +537,7 @@ func run1(c Case) ev.Verdict {
 var closeProp = &ev.Prop[Case]{
 	ID: "C07", Name: "close", Gen: gen, Run: run, Bubble: true, Child: true, LeakIsFailure: true,
 	Settle: 40 * time.Second, ChildTimeout: 90 * time.Second,
+	HangConfirm: closeRTProp, HangConfirmCase: func(c Case) Case { c.RealTime = true; return c },
 }
 
 var closeRTProp = &ev.Prop[Case]{
